@@ -712,7 +712,7 @@ pub fn c10_scenarios(tier: Tier) -> Vec<Scenario> {
     let ev = if b.thorough { 8 } else { 6 };
     let mut v = Vec::new();
     for with_runtime in [true, false] {
-        for state in [PState::Empty, PState::Idle, PState::Exhausted, PState::Closed] {
+        for state in [PState::Empty, PState::Idle, PState::Exhausted, PState::Closed, PState::Owed] {
             let sc = TimeScenario { with_runtime, state, max_events: if with_runtime { ev } else { 2 } };
             v.push(Scenario::new(
                 &format!("managed/{}/{:?}", if with_runtime { "tokio" } else { "no-runtime" }, state),
